@@ -84,6 +84,7 @@ thread_local! {
     static FUEL: Cell<u64> = const { Cell::new(u64::MAX) };
     static DEPTH_CAP: Cell<usize> = const { Cell::new(usize::MAX) };
     static YIELD_EVERY: Cell<u64> = const { Cell::new(0) };
+    static WANT_TYPES: Cell<bool> = const { Cell::new(true) };
     static TICKS: Cell<u64> = const { Cell::new(0) };
     static HELPER_SCOPE: Cell<usize> = const { Cell::new(0) };
     static FRAMES: RefCell<Vec<bool>> = const { RefCell::new(Vec::new()) };
@@ -135,6 +136,12 @@ pub fn set_depth_cap(cap: usize) {
 /// interpreter steps only, never inside a cell's critical section.
 pub fn set_yield_every(n: u64) {
     YIELD_EVERY.with(|y| y.set(n));
+}
+
+/// Whether `ExecEvent::static_type` is computed (default true; monitors that only look at outcomes
+/// switch it off to stay cheap).
+pub fn set_want_types(want: bool) {
+    WANT_TYPES.with(|w| w.set(want));
 }
 
 /// Source text of the statement / expression being executed on this thread (innermost).
@@ -291,7 +298,11 @@ pub(crate) fn enter_exec() -> bool {
 
 pub(crate) fn observe_exec(instruction: &Instruction, result: &ExecResult) {
     let (kind, detail) = kind(instruction);
-    let static_type = catch_unwind(AssertUnwindSafe(|| instruction.return_type())).ok();
+    let static_type = if WANT_TYPES.with(Cell::get) {
+        catch_unwind(AssertUnwindSafe(|| instruction.return_type())).ok()
+    } else {
+        None
+    };
     let outcome = match result {
         Ok(value) => Outcome::Value(value),
         Err(ExecStop::Break) => Outcome::Break,
